@@ -32,6 +32,14 @@ var units = map[string]unit{
 		Imports:   []string{"AggkitModel.Model.GenPrelude"},
 		Custom:    certFacts,
 	},
+	"SyncFacts": {
+		Files: []string{"sync/evmdownloader.go", "sync/evmdriver.go", "bridgesync/processor.go", "l1infotreesync/processor.go",
+			"l1infotreesync/processor_verifybatches.go", "l1infotreesync/processor_initl1inforootmap.go", "lastgersync/processor.go",
+			"tree/tree.go", "tree/appendonlytree.go", "tree/updatabletree.go"},
+		Namespace: "Aggkit.Gen.SyncFacts",
+		Imports:   []string{"AggkitModel.Model.GenPrelude"},
+		Custom:    syncFacts,
+	},
 	"Schema": {
 		Files:     []string{"*/migrations/*.sql", "db/sqlite.go"},
 		Namespace: "Aggkit.Gen.Schema",
